@@ -38,12 +38,12 @@ func ruleProposalDominators(c *Ctx) {
 			}},
 		{ID: "verifyRequest.accept.state-root", Fn: fnVR, Target: "ok-return", Assume: symAssume(cfgSRInHeader, true),
 			Guards: []Guard{{ID: "state-root", Doc: "the request's state root equals the local root of the previous height", Alts: [][]string{{"pkg/consensus#stateRoot", "pkg/core/state#Root"}}}}},
-		{ID: "getBlockWitness.collect", Fn: [3]string{cnsPkg, "service", "getBlockWitness"}, Target: "node:local:sigs,local:p",
+		{ID: "getBlockWitness.collect", Fn: [3]string{cnsPkg, "service", "getBlockWitness"}, Target: "node:local<-builtin.make,local<-github.com/nspcc-dev/dbft#CommitPayloads",
 			Guards: []Guard{{ID: "current-view", Doc: "only commits of the current view sign the block (a commit kept from an earlier view signed a different header)", Alts: [][]string{{"github.com/nspcc-dev/dbft.(ConsensusMessage).ViewNumber", "github.com/nspcc-dev/dbft#ViewNumber"}}}}},
-		{ID: "ApplyPolicyToTxSet.truncate", Fn: [3]string{"pkg/core", "Blockchain", "ApplyPolicyToTxSet"}, LoopOver: "param:txes", Target: "node:param:txes,local:i",
+		{ID: "ApplyPolicyToTxSet.truncate", Fn: [3]string{"pkg/core", "Blockchain", "ApplyPolicyToTxSet"}, LoopOver: "param#0", Target: "node:param#0,local<-param#0",
 			Guards: []Guard{{ID: "limits", Doc: "the set is cut where block size or system fee would exceed the limit", Whole: true,
 				Alts: [][]string{{"pkg/config#MaxBlockSize", "pkg/config#MaxBlockSystemFee"}}, Extra: []string{"pkg/core#config", symTxSize, "pkg/core/transaction#SystemFee", "pkg/config#MaxTransactionsPerBlock"}}},
-			MustNode: [][]string{{"local:blockSize", symTxSize}, {"local:blockSysFee", "pkg/core/transaction#SystemFee"}}},
+			MustNode: [][]string{{"op:+=", symTxSize}, {"op:+=", "pkg/core/transaction#SystemFee"}}},
 	})
 	// the witness is assembled walking validators by index, never by ranging over the signature map
 	if fd := c.P.Func(cnsPkg, "service", "getBlockWitness"); fd != nil {
